@@ -6,7 +6,7 @@ import re
 
 from ..program import AnalysisError, walk_local, dotted
 from ..analysis import Spec, src, const_value
-from ..rules import (string_template, cond_branches, canon, cond_equiv, positional_args, substitute_locals, template_sites, GWF, EXC, mpt, need_func, stores_to, is_const, kw,
+from ..rules import (value_leaves, string_template, cond_branches, canon, cond_equiv, positional_args, substitute_locals, template_sites, GWF, EXC, mpt, need_func, stores_to, is_const, kw,
                      parent_map, raise_class, substitute_locals)
 from . import common, c18
 from .c12 import _first_exit
@@ -453,6 +453,12 @@ def declined_cleanup(prog, an, rep):
                 isinstance(x.func, ast.Attribute) and
                 x.func.attr == 'decline'][0]
         pr = src(call.func.value)
+        # the pull request may be picked by a search loop first
+        # (found = None; for p in prs: if ...: found = p; break)
+        names = [v.id for v in value_leaves(f, call.func.value)
+                 if isinstance(v, ast.Name)]
+        if names and pr not in names:
+            pr = names[0]
         conds = {
             'status OPEN': "%s.status == 'OPEN'" % pr,
             'source is this w/ name': '%s.src_branch == %s' % (pr, nm),
